@@ -264,7 +264,7 @@ func c5Check(c *Ctx, tn, class string, fn *ssa.Function) {
 		}
 		in := inner[0]
 		ok, over, why := LoopVisitsAll(fn, in)
-		c.Check(ok && over == recv.Name(), "R5.1", name, "visits-all", in.Pos(), "every branch is asked (range over %s) %s", over, why)
+		c.Check(ok && over == PN(recv), "R5.1", name, "visits-all", in.Pos(), "every branch is asked (range over %s) %s", over, why)
 		// ce threaded: arg is phi(ce, in)
 		ph, isPhi := Strip(in.Call.Args[1]).(*ssa.Phi)
 		thread := false
@@ -578,7 +578,7 @@ func c5Levels(c *Ctx, impls []*types.Named) {
 			visits := false
 			if lo != nil {
 				v, over, _ := LoopVisitsAll(fn, lo)
-				visits = v && over == fn.Params[0].Name()
+				visits = v && over == PN(fn.Params[0])
 			}
 			c.Check(lo != nil && okUpd && visits, "R5.3", name, "min-fold", acc.Pos(), "minimum of LevelOf over every branch, updated only under lvl < min")
 		case "AtomicLevel", "Level":
@@ -591,11 +591,11 @@ func c5Levels(c *Ctx, impls []*types.Named) {
 				if ok {
 					d = Desc(call.Call.Args[0])
 					// argument is a field of the receiver (wrapped core or own enabler)
-					ok = strings.HasPrefix(d, fn.Params[0].Name()+".")
+					ok = strings.HasPrefix(d, PN(fn.Params[0])+".")
 				} else if isCall && call.Call.StaticCallee() != nil && call.Call.StaticCallee().Name() == "Level" && len(call.Call.Args) == 1 {
 					// ... or delegates to the Level() of the object it wraps (itself decided here)
 					d = Desc(call.Call.Args[0])
-					ok = strings.HasPrefix(d, fn.Params[0].Name()+".")
+					ok = strings.HasPrefix(d, PN(fn.Params[0])+".")
 				}
 				c.Check(ok, "R5.3", name, "return#"+itoa(k+1), r.Pos(), "Level() reports LevelOf(%s) of the wrapped core / own enabler", d)
 			}
@@ -884,7 +884,7 @@ func c5Atomic(c *Ctx) {
 			seqs, trunc := ConcPaths(en, ConcCfg{
 				Inline: inl, InlineAny: inl, Fork: forkLoad, Event: retInt,
 				Conc: func(d string) (int64, bool) {
-					if len(en.Params) == 2 && d == en.Params[1].Name() {
+					if len(en.Params) == 2 && d == PN(en.Params[1]) {
 						return lv0, true
 					}
 					return 0, false
@@ -935,7 +935,7 @@ func c5Atomic(c *Ctx) {
 			seqs, trunc := ConcPaths(sl, ConcCfg{
 				Inline: inl, InlineAny: inl,
 				Conc: func(d string) (int64, bool) {
-					if len(sl.Params) == 2 && d == sl.Params[1].Name() {
+					if len(sl.Params) == 2 && d == PN(sl.Params[1]) {
 						return lv0, true
 					}
 					return 0, false
@@ -953,7 +953,7 @@ func c5Atomic(c *Ctx) {
 			})
 			for _, sq := range seqs {
 				n++
-				if sq != "store("+sl.Params[0].Name()+".l,"+itoa(int(lv0))+")" {
+				if sq != "store("+PN(sl.Params[0])+".l,"+itoa(int(lv0))+")" {
 					bad = append(bad, "l="+itoa(int(lv0))+": "+sq)
 				}
 			}
@@ -1211,13 +1211,13 @@ func c5PointerStable(c *Ctx, rule string) {
 				}
 				var rootD string
 				Bound(func() { rootD = Desc(Root(stI.Addr)) })
-				if Root(stI.Addr) != ssa.Value(recv) && rootD != recv.Name() {
+				if Root(stI.Addr) != ssa.Value(recv) && rootD != PN(recv) {
 					return
 				}
 				k++
 				var g []string
 				Bound(func() { g = AtomStrings(Guards(stI)) })
-				lazy := containsS(g, recv.Name()+".l == nil")
+				lazy := containsS(g, PN(recv)+".l == nil")
 				c.Check(lazy, rule, fn.String(), "pointer-stable#"+itoa(k), stI.Pos(), "a store through the *AtomicLevel receiver (%s) happens only where no counter existed yet (guards %v); replacing the counter detaches every logger built from an earlier copy, which then never sees later level changes", Desc(stI.Addr), g)
 			})
 		}
